@@ -184,8 +184,10 @@ func runBehaviour(b *Behaviour, opts *MatOpts, src string, onCall func(k int, c 
 				o2 := *opts
 				o2.QueryGroup = true
 				opts = &o2 // for the rest of this behaviour only (opts is a parameter)
-			case "node_gone", "pnode_gone", "wait_gone", "wait_dial":
+			case "node_gone", "pnode_gone", "wait_gone", "wait_dial", "router_gone":
 				switch c.Kind {
+				case "router_gone":
+					b.Def[c.F-1][c.N-1].Kind = "act"
 				case "node_gone", "pnode_gone":
 					b.Def[c.F-1][c.N-1].Kind = "gone"
 				case "wait_gone":
